@@ -99,6 +99,13 @@ class Hooks(Harness):
             return "a = " + x + " <m>\nb = 4 <s>\nEND\n", [("a", ("Q", "R", "m")), ("b", ("Q", 4, "s"))]
         if w == "seqquantity":
             return "a = (" + x + " <m>, 3 <s>)\nEND\n", [("a", [("Q", "R", "m"), ("Q", 3, "s")])]
+        if w == "seqwhole":
+            return "a = (" + x + ", 2) <m>\nEND\n", [("a", ("Q", ["R", 2], "m"))]
+        if w == "setwhole":
+            return "a = {" + x + "} <m>\nb = 1\nEND\n", [("a", ("Q", ("set", ["R"]), "m")), ("b", 1)]
+        if w == "seqboth":
+            return ("OBJECT = o\n a = (" + x + " <m>, 2 <m>) <k>\nEND_OBJECT\nEND\n",
+                    [("o", ("object", [("a", ("Q", [("Q", "R", "m"), ("Q", 2, "m")], "k"))]))])
         if w == "blocks":
             return ("OBJECT = o\n GROUP = g\n  h = " + x + "\n  i = 7\n END_GROUP\n j = " + x + "\nEND_OBJECT\nEND\n",
                     [("o", ("object", [("g", ("group", [("h", "R"), ("i", 7)])), ("j", "R")]))])
@@ -168,6 +175,10 @@ def snap(v):
         return {"R": v.text}
     if isinstance(v, Q):
         return {"Q": [snap(v.value), v.units]}
+    if hasattr(v, "_fields") and hasattr(v, "units"):
+        return {"default Quantity": [snap(v.value), v.units]}
+    if kind(v) == "set":
+        return ["set"] + [snap(x) for x in v]
     return v
 
 
@@ -225,7 +236,9 @@ def obligations(tier):
     obs = []
     shapes = SHAPES[:4] if tier == "quick" else SHAPES
     for d in ("PVL", "ODL", "PDS3", "Omni"):
-        for w in ("top", "seq", "set", "nested", "quantity", "seqquantity", "blocks"):
+        for w in ("top", "seq", "set", "nested", "quantity", "seqquantity", "blocks", "seqwhole", "setwhole", "seqboth"):
+            if w in ("seqwhole", "setwhole", "seqboth") and d in ("ODL", "PDS3"):
+                continue          # ODL allows units after numbers only
             for sh in shapes:
                 obs.append(Hooks(dialect=d, where=w, shape=sh))
             obs.append(Hooks(dialect=d, where=w, shape=shapes[0], order="substitutes-first"))
